@@ -62,12 +62,12 @@ def script_text(v):
 def run(tier):
     rep = Report(PROP, tier, "model_checking")
     quick = tier == "quick"
-    rep.rule = ("every script (pre-state in %s) x (6 discarding constructs) x (goal sequences: %s) over the 18-goal alphabet of MC_C11; "
+    rep.rule = ("every script (pre-state) x (6 discarding constructs) x (goal sequence over the 18-goal alphabet of MC_C11): %s; "
                 "distinct = pre-state x construct x multiset of goal kinds in the sequence"
-                % ("{none, bb_put+freeze}; plus {bb_b_put+dif+structure} with core pairs" if quick
-                   else "{none, bb_put+freeze, bb_b_put+dif+structure}",
-                   "length <= 2 over all goals, length 3 over 6 core goals" if quick
-                   else "length <= 3 over all goals, length 4 over 6 core goals"))
+                % ("pre-states {none, bb_put+freeze} with all sequences of length <= 2 and length 3 over 6 core goals; pre-state "
+                   "{bb_b_put+dif+bound structure} with core pairs" if quick
+                   else "pre-states {none, bb_put+freeze} with all sequences of length <= 3; pre-state {bb_b_put+dif+bound structure} "
+                        "with length <= 2 and core triples; pre-state none with length 4 over 6 core goals"))
     res, vecs = generate("MC_C11", "MC_C11_%s.cfg" % tier, workers=base.cap(8 if quick else 14), timeout=3400,
                          key=lambda v: json.dumps(v["sc"]))
     rep.add_tlc(res)
